@@ -727,7 +727,10 @@ impl Locomotive {
                 self.mu = None;
             }
             ForceMaxSideEffect::SetMassToNone => {
+                // the mass derived from the constituent fields has to go as well, or
+                // `mass()` keeps reporting a mass that no longer matches `force_max`
                 self.mass = None;
+                self.expunge_mass_fields();
             }
             ForceMaxSideEffect::SetMassAndMuToNone => {
                 self.mu = None;
@@ -1180,6 +1183,7 @@ impl Locomotive {
             MuSideEffect::SetMassToNone => {
                 self.mu = Some(mu);
                 self.mass = None;
+                self.expunge_mass_fields();
                 Ok(())
             }
         }
